@@ -33,12 +33,13 @@ const (
 	KRecord      // ForRecord, overwrite merge
 	KRecordMerge // ForRecord with custom (order sensitive, length changing) merge
 	KKey
-	KInt64Mul // ForInt64(WithMerge(v*3+d)) — order-sensitive numeric merge
+	KInt64Mul  // ForInt64(WithMerge(v*3+d)) — order-sensitive numeric merge
+	KStringMin // ForString(WithMerge(keep the smaller string)) — the merged result may be shorter than the delta
 	kindCount
 )
 
 var kindNames = [...]string{"int", "int16", "int32", "int64", "uint", "uint16", "uint32", "uint64", "float32", "float64",
-	"bool", "string", "stringcat", "enum", "record", "recordmerge", "key", "int64mul"}
+	"bool", "string", "stringcat", "enum", "record", "recordmerge", "key", "int64mul", "stringmin"}
 
 func (k Kind) String() string { return kindNames[k] }
 func (k Kind) Numeric() bool  { return k <= KFloat64 || k == KInt64Mul }
@@ -46,12 +47,15 @@ func (k Kind) Float() bool    { return k == KFloat32 || k == KFloat64 }
 func (k Kind) Signed() bool   { return k <= KInt64 || k == KInt64Mul }
 func (k Kind) Unsigned() bool { return k >= KUint && k <= KUint64 }
 func (k Kind) Stringy() bool {
-	return k == KString || k == KStringCat || k == KEnum || k == KRecord || k == KRecordMerge || k == KKey
+	return k == KString || k == KStringCat || k == KStringMin || k == KEnum || k == KRecord || k == KRecordMerge || k == KKey
 }
-func (k Kind) Textual() bool  { return k == KString || k == KStringCat || k == KEnum || k == KKey }
-func (k Kind) IsRecord() bool { return k == KRecord || k == KRecordMerge }
+func (k Kind) Textual() bool {
+	return k == KString || k == KStringCat || k == KStringMin || k == KEnum || k == KKey
+}
+func (k Kind) PlainString() bool { return k == KString || k == KStringCat || k == KStringMin }
+func (k Kind) IsRecord() bool    { return k == KRecord || k == KRecordMerge }
 func (k Kind) Mergeable() bool {
-	return k.Numeric() || k == KString || k == KStringCat || k.IsRecord()
+	return k.Numeric() || k.PlainString() || k.IsRecord()
 }
 
 // Val is a column value: numbers in B (canonical bits), string-like kinds in S.
@@ -160,6 +164,8 @@ func mergeVal(k Kind, cur Val, has bool, d Val) Val {
 		return Val{S: d.S}
 	case KStringCat:
 		return Val{S: cur.S + d.S}
+	case KStringMin:
+		return Val{S: minMerge(cur.S, d.S)}
 	case KRecord:
 		return Val{S: d.S}
 	case KRecordMerge:
@@ -319,6 +325,14 @@ var nums = map[Kind]numOps{
 
 func concatMerge(v, d string) string { return v + d }
 
+// minMerge keeps the smaller of the two strings (an empty current value counts as "no value yet")
+func minMerge(v, d string) string {
+	if v == "" || d < v {
+		return d
+	}
+	return v
+}
+
 // makeColumn creates a real column of the given kind.
 func makeColumn(k Kind) column.Column {
 	switch k {
@@ -328,6 +342,8 @@ func makeColumn(k Kind) column.Column {
 		return column.ForString()
 	case KStringCat:
 		return column.ForString(column.WithMerge(concatMerge))
+	case KStringMin:
+		return column.ForString(column.WithMerge(minMerge))
 	case KEnum:
 		return column.ForEnum()
 	case KRecord:
@@ -353,7 +369,7 @@ func writeCell(t *column.Txn, r column.Row, c ColSpec, w Write) {
 			} else {
 				nums[k].rowMerge(r, c.Name, v.B)
 			}
-		case k == KString || k == KStringCat:
+		case k.PlainString():
 			if via == 1 {
 				t.String(c.Name).Merge(v.S)
 			} else {
@@ -379,6 +395,14 @@ func writeCell(t *column.Txn, r column.Row, c ColSpec, w Write) {
 			panic(err)
 		}
 		return
+	case 4: // int / uint columns accept narrower integers through the any-typed path
+		r.SetAny(c.Name, narrowAny(k, v))
+		return
+	case 5:
+		if err := r.SetMany(map[string]any{c.Name: narrowAny(k, v)}); err != nil {
+			panic(err)
+		}
+		return
 	}
 	switch {
 	case k.Numeric():
@@ -393,7 +417,7 @@ func writeCell(t *column.Txn, r column.Row, c ColSpec, w Write) {
 		} else {
 			r.SetBool(c.Name, !w.False)
 		}
-	case k == KString || k == KStringCat:
+	case k.PlainString():
 		if via == 1 {
 			t.String(c.Name).Set(v.S)
 		} else {
@@ -414,6 +438,36 @@ func writeCell(t *column.Txn, r column.Row, c ColSpec, w Write) {
 	case k == KKey:
 		r.SetKey(v.S)
 	}
+}
+
+// narrowAny returns the value of an int / uint column as the narrowest Go integer type that
+// holds it (PutAny encodes int8/int16/int32 and uint8/uint16/uint32 in 2 or 4 bytes; the int and
+// uint columns read values of any size).
+func narrowAny(k Kind, v Val) any {
+	if k == KInt {
+		x := int64(v.B)
+		switch {
+		case x >= -128 && x <= 127:
+			return int8(x)
+		case x >= -32768 && x <= 32767:
+			return int16(x)
+		case x >= -(1<<31) && x < 1<<31:
+			return int32(x)
+		}
+		return int(x)
+	}
+	if k == KUint {
+		switch {
+		case v.B <= 0xff:
+			return uint8(v.B)
+		case v.B <= 0xffff:
+			return uint16(v.B)
+		case v.B <= 0xffffffff:
+			return uint32(v.B)
+		}
+		return uint(v.B)
+	}
+	return anyOf(k, v)
 }
 
 func anyOf(k Kind, v Val) any {
@@ -449,7 +503,7 @@ func readCell(t *column.Txn, r column.Row, c ColSpec, viaTxn bool) (Val, bool) {
 			v = r.Bool(c.Name)
 		}
 		return Val{B: 1}, v
-	case k == KString || k == KStringCat:
+	case k.PlainString():
 		var s string
 		var ok bool
 		if viaTxn {
